@@ -67,6 +67,20 @@ Verdict(e) ==
     [] e.op = "length" ->
          IF e.res.k = "Exception" THEN "C06.length_raises"
          ELSE IF R(e.res.q[1], e.res.q[2]) = Len2(e.args[1]) THEN "" ELSE "C06.length"
+    [] e.op = "area" ->
+         IF e.res.k = "Exception" THEN "C06.area_raises"
+         ELSE LET pg == Norm(e.args[1])  m == Measures(pg) IN
+              IF m.area.den = 0 THEN "skip"
+              ELSE IF R(e.res.q[1], e.res.q[2]) = R(m.area.rs[1], m.area.den * m.area.den) THEN "" ELSE "C06.area"
+    \* angle (logged as the certified rational cos^2 of the returned value), parallel, orthogonal
+    [] e.op \in {"angle", "parallel", "orthogonal"} ->
+         IF ~(e.args[1].k \in {"Line", "Plane", "Vector"} /\ e.args[2].k \in {"Line", "Plane", "Vector"} /\ RelSupported(e.args[1], e.args[2])) THEN "skip"
+         ELSE IF e.res.k = "Exception" THEN "C11.total"
+         ELSE IF e.op = "parallel" THEN (IF e.res.k = "Bool" /\ e.res.b = ParallelRel(e.args[1], e.args[2]) THEN "" ELSE "C11.parallel")
+         ELSE IF e.op = "orthogonal" THEN (IF e.res.k = "Bool" /\ e.res.b = OrthRel(e.args[1], e.args[2]) THEN "" ELSE "C11.orthogonal")
+         ELSE LET s == AngleSpec(e.args[1], e.args[2])
+                  c2 == IF s.fn = "acos_sqrt" THEN s.q ELSE RSub(<<1, 1>>, s.q)
+              IN IF R(e.res.q[1], e.res.q[2]) = c2 THEN "" ELSE "C11.angle"
     \* the solver with integer / Fraction systems is exact: truthiness, number of free parameters and every returned tuple
     [] e.op = "solve" ->
          IF e.truthy # Consistent(e.m) THEN "C16.truthiness"
